@@ -376,6 +376,16 @@ func independent(c *wk.Case, f *sfnt.Font, b []byte) {
 	if err != nil {
 		c.Count("ximage_declined", 1)
 		c.Class("ximage-declined: " + err.Error())
+		// two reasons are properties of the generated font value, not of the
+		// writer: no character map at all, and TrueType outlines without the
+		// version-1.0 maxp data (Outlines.Maxp == nil)
+		_, isGlyf := f.Outlines.(*glyf.Outlines)
+		benign := strings.Contains(err.Error(), "cmap") && f.CMapTable == nil ||
+			strings.Contains(err.Error(), "maxp") && isGlyf && f.Outlines.(*glyf.Outlines).Maxp == nil ||
+			strings.Contains(err.Error(), "unsupported") || strings.Contains(err.Error(), "not supported")
+		if !benign {
+			c.Fail("independent-parser", "rejects-file", "golang.org/x/image/font/sfnt rejects the file just written: %v", err)
+		}
 		return
 	}
 	c.Count("ximage_parsed", 1)
@@ -411,6 +421,60 @@ func independent(c *wk.Case, f *sfnt.Font, b []byte) {
 	}
 	ppem := fixed.I(int(f.UnitsPerEm))
 	n := f.NumGlyphs()
+	// outlines: every glyph the independent parser is asked for must load,
+	// and for simple TrueType glyphs it must find one sub-path per contour
+	for i := 0; i < 24 && i < n; i++ {
+		gid := i
+		if i >= 6 {
+			gid = c.T.Draw(n)
+		}
+		segs, err := xf.LoadGlyph(&buf, xsfnt.GlyphIndex(gid), ppem, nil)
+		if err != nil {
+			if strings.Contains(err.Error(), "unsupported") || strings.Contains(err.Error(), "not supported") || strings.Contains(err.Error(), "compound glyph") {
+				c.Count("ximage_loadglyph_unsupported", 1)
+				continue
+			}
+			if o, ok := f.Outlines.(*glyf.Outlines); ok {
+				if g := o.Glyphs[gid]; g != nil {
+					if _, composite := g.Data.(glyf.CompositeGlyph); composite {
+						// generated composites carry random transform bytes
+						// and component ids; x/image may legitimately refuse
+						c.Count("ximage_loadglyph_composite_refused", 1)
+						continue
+					}
+				}
+			}
+			c.Fail("independent-parser", "LoadGlyph", "glyph %d: golang.org/x/image/font/sfnt cannot load the outline from the file just written: %v", gid, err)
+		}
+		moves := 0
+		for _, s := range segs {
+			if s.Op == xsfnt.SegmentOpMoveTo {
+				moves++
+			}
+		}
+		if o, ok := f.Outlines.(*glyf.Outlines); ok {
+			g := o.Glyphs[gid]
+			want := -1
+			if g == nil {
+				want = 0
+			} else if sg, ok := g.Data.(glyf.SimpleGlyph); ok {
+				if info, err := sg.Decode(); err == nil {
+					want = 0
+					for _, ct := range info.Contours {
+						if len(ct) < 3 {
+							want = -1 // degenerate contours: renderers differ
+							break
+						}
+						want++
+					}
+				}
+			}
+			if want >= 0 && moves != want {
+				c.Fail("independent-parser", "LoadGlyph/contours", "glyph %d: the font value has %d contours, golang.org/x/image/font/sfnt finds %d sub-paths in the file", gid, want, moves)
+			}
+		}
+		c.Count("ximage_outlines_checked", 1)
+	}
 	for i := 0; i < 16 && i < n; i++ {
 		gid := i
 		if i >= 4 {
